@@ -1,4 +1,5 @@
 use crate::engine::core::Event;
+use crate::engine::types::ScalarValue;
 
 /// Direct accessor for evaluating conditions against a single event without materializing all fields.
 /// This provides optimized field access that avoids creating a HashMap of all event fields,
@@ -29,6 +30,15 @@ impl<'a> DirectEventAccessor<'a> {
                 v.as_i64()
                     .or_else(|| v.as_str().and_then(|s| s.parse::<i64>().ok()))
             }),
+        }
+    }
+
+    /// Get a float payload value as an f64 (such a value has no i64 reading)
+    #[inline]
+    pub fn get_field_as_f64(&self, field: &str) -> Option<f64> {
+        match self.event.payload.get(field) {
+            Some(ScalarValue::Float64(f)) => Some(*f),
+            _ => None,
         }
     }
 }
